@@ -1,63 +1,31 @@
 """Translator T-session for C13: which session hash every DKG protocol hands to dkg/bcast.
 
 dkg/bcast signs H(session, id, type url, value); signatures given in one ceremony must not verify in another, so the
-session of every reliable-broadcast component has to be unique per ceremony. This extractor (plain text scan with
-balanced-parenthesis argument splitting; fails closed) lists every non-test call `bcast.New(host, peers, key, session)`
-under /repo/dkg (the test helper dkg/pedersen/testutils.go is excluded) and writes
-lean/CharonV/Generated/BcastSession.lean; Props/C13Session.lean decides that the table is exactly the expected one
-(the initial ceremony uses the definition hash of the cluster being created, every ceremony on an existing cluster uses
-its lock hash, and there is no other call site, e.g. in a shared helper)."""
-import os, re, glob
+session of every reliable-broadcast component has to be unique per ceremony. The Go tool `trans-bcastsession`
+(harness/cmd/trans-bcastsession: go/parser with object resolution, standard library only; fails closed) lists every
+non-test call `bcast.New(host, peers, key, session)` under /repo/dkg (the test helper dkg/pedersen/testutils.go is
+excluded), prints the session argument after replacing single-assignment locals of the enclosing function by their
+defining expressions (`session := def.DefinitionHash; bcast.New(…, session)` is the row `def.DefinitionHash`) and
+writes lean/CharonV/Generated/BcastSession.lean; Props/C13Session.lean decides that the table is exactly the expected
+one (the initial ceremony uses the definition hash of the cluster being created, every ceremony on an existing cluster
+uses its lock hash, and there is no other call site, e.g. in a shared helper).
+
+The tool is built here when the caller did not build it (it is not listed in ENTRY["go_tools"])."""
+import os, subprocess
 from vlib import core
 
 
-def split_args(s):
-    args, depth, cur = [], 0, ""
-    for ch in s:
-        if ch in "([{":
-            depth += 1
-        elif ch in ")]}":
-            depth -= 1
-        if ch == "," and depth == 0:
-            args.append(cur.strip()); cur = ""
-        else:
-            cur += ch
-    if cur.strip():
-        args.append(cur.strip())
-    return args
-
-
 def bcastsession(bindir):
+    exe = os.path.join(bindir, "trans-bcastsession")
     out = os.path.join(core.LEAN, "CharonV", "Generated", "BcastSession.lean")
     os.makedirs(os.path.dirname(out), exist_ok=True)
-    rows, log = [], []
-    files = sorted(glob.glob(os.path.join(core.REPO, "dkg", "**", "*.go"), recursive=True))
-    for f in files:
-        rel = os.path.relpath(f, core.REPO)
-        if rel.endswith("_test.go") or rel.startswith("dkg/bcast/") or rel == "dkg/pedersen/testutils.go" or "verif_export" in rel:
-            continue
-        src = open(f).read()
-        # strip line comments
-        code = "\n".join(l.split("//")[0] for l in src.split("\n"))
-        for m in re.finditer(r"\bbcast\.New\(", code):
-            i, depth = m.end(), 1
-            while i < len(code) and depth > 0:
-                depth += code[i] in "([{"
-                depth -= code[i] in ")]}"
-                i += 1
-            args = split_args(code[m.end():i - 1])
-            if len(args) != 4:
-                return False, f"{rel}: bcast.New with {len(args)} arguments: extend the extractor"
-            rows.append((rel, re.sub(r"\s+", " ", args[3])))
-        # any other way to construct a Component (alias, method value) is not understood: fail closed
-        if re.search(r"\bbcast\.New\b(?!\()", code):
-            return False, f"{rel}: bcast.New used other than in a direct call: extend the extractor"
-    rows.sort()
-    body = ",\n".join(f'  ("{a}", "{b}")' for a, b in rows)
-    txt = ("/- GENERATED by vlib/trans_bcastsession.py (translator T-session, C13). Do not edit, not committed.\n"
-           "Every non-test call `bcast.New(host, peers, key, session)` under dkg/: (file, session argument). -/\n"
-           "namespace CharonV.Generated.BcastSession\n\n"
-           "def sites : List (String × String) := [\n" + body + "\n]\n\nend CharonV.Generated.BcastSession\n")
-    with core.LeanLock():
-        open(out, "w").write(txt)
-    return True, "\n".join(f"{a}: {b}" for a, b in rows)
+    if not os.path.exists(exe):
+        ok, log, exe = core.go_build("trans-bcastsession", bindir)
+        if not ok:
+            return False, "trans-bcastsession was not built:\n" + log
+    with core.LeanLock():  # do not swap the file under a concurrent lake build
+        p = subprocess.run([exe, "-repo", core.REPO, "-out", out], stdout=subprocess.PIPE,
+                           stderr=subprocess.STDOUT, text=True, timeout=300, env=dict(core.GOENV))
+        if p.returncode != 0 and os.path.exists(out):
+            os.remove(out)  # fail closed: a stale table must not keep the theorem true
+    return p.returncode == 0, p.stdout
